@@ -6,7 +6,7 @@ at all without a Content-Length.  Metamorphic half: the same for every
 fragmentation, buffer size and spill threshold.
 """
 import io
-from vmon.wsgi import RecStream, make_environ, call_app
+from vmon.wsgi import RecBytesIO, RecStream, make_environ, call_app
 
 RULE = ('tree units: every sequence of short-read decisions (stateless re-execution of the choice tree '
         'of RecStream) for every body length, Content-Length and buffer size inside the bound, through '
@@ -103,6 +103,22 @@ def tree_unit(ctx, unit):
                 ctx.count('tree_configs')
 
 
+class PlainBytesIO:
+    """Book-keeping around an io.BytesIO of exactly that type (code may test `type(x) is BytesIO`): what was consumed is read off
+    its position afterwards."""
+
+    def __init__(self, data, start):
+        import io
+        self.raw = io.BytesIO(data)
+        self.raw.seek(start)
+        self.start = start
+
+    @property
+    def reads(self):
+        c = self.raw.tell() - self.start if not self.raw.closed else 0
+        return [(c, c)] if c > 0 else []
+
+
 def one_case(ctx, data, cl, buf, policy_desc, mode, rng=None, wit=None):
     """mode: 'direct' | 'request' | 'wsgi'"""
     import ombott
@@ -125,6 +141,12 @@ def one_case(ctx, data, cl, buf, policy_desc, mode, rng=None, wit=None):
         st.as_bytearray()
     elif (n + buf) % 5 == 1:
         st.as_reused_buffer_view()
+    elif (n + buf) % 5 == 2 and mode != 'direct' and kind in ('full', 'rand', 'one'):
+        # a real io.BytesIO (what test clients and buffering servers hand over), every other time positioned behind an earlier
+        # pipelined request that sits in the same connection buffer
+        prefix = b'POST /earlier HTTP/1.1\r\nContent-Length: 5\r\n\r\nfirst' if n % 2 else b''
+        st = RecBytesIO(prefix + data, len(prefix)) if (n // 2) % 2 else PlainBytesIO(prefix + data, len(prefix))
+        ctx.count('input_stream_is_a_real_BytesIO' + ('_positioned_past_an_earlier_request' if prefix else ''))
     wit = wit or {'unit': {'kind': 'one', 'data_len': n, 'cl': cl, 'buf': buf, 'policy': list(policy_desc), 'mode': mode,
                            'data_seed': None}}
     where = f'{mode} len={n} CL={cl} buf={buf} policy={policy_desc[0]}'
@@ -149,7 +171,7 @@ def one_case(ctx, data, cl, buf, policy_desc, mode, rng=None, wit=None):
             if ctype.startswith('multipart/'):
                 ctx.count('multipart_content_type_on_arbitrary_bytes')
             wit['unit']['ctype'] = ctype
-        env = make_environ('POST', '/b', stream=st, content_length=cl, content_type=ctype)
+        env = make_environ('POST', '/b', stream=getattr(st, 'raw', st), content_length=cl, content_type=ctype)
         cfg = {'max_memfile_size': buf}
         if mode == 'request':
             req = ombott.Request(env, config=cfg)
@@ -173,7 +195,7 @@ def one_case(ctx, data, cl, buf, policy_desc, mode, rng=None, wit=None):
                 ctx.count('input_stream_replaced_through_the_request')
                 if fourth != data2[:min(cl, n)]:
                     ctx.violation('body-after-the-input-stream-was-replaced-is-not-the-new-stream', f'{where}: {len(fourth)} bytes, starting {fourth[:12]!r}, expected {data2[:12]!r}', wit)
-            if env['wsgi.input'] is st:
+            if env['wsgi.input'] is getattr(st, 'raw', st):
                 ctx.violation('wsgi.input-not-replaced-by-buffered-copy', where, wit)
         else:
             app = ombott.Ombott(cfg)
